@@ -11,6 +11,12 @@ CHECKS = {
          "Runs the real server in-process and compares, after every few commands of PRNG-generated histories (APPEND/STORE/EXPUNGE/UID EXPUNGE/CLOSE/COPY/MOVE, valid and failing, 1-4 sessions, 3 mailboxes, same-mailbox and already-present destinations) and after each bulk command at sizes 1..2001, the authoritative content of every mailbox (order, flags, bytes) with a small reference model written from the property text. Held on the histories explored; exploration is the right level because the input space is unbounded command sequences.",
          "Trusts the harness wire client/parser and the reference model; each command is issued right after SELECT so the issuing view equals the authoritative content; order inside one multi-message COPY/MOVE batch is compared as a set.",
          "DESIGN.md §4 C03"),
+
+ "C08": ("exploration",
+         "reference-model monitor: every db.Transaction/db.ReadOnly method called directly on the SQLite client (verif-tagged constructor), each result and a full getter dump compared with an in-memory relational model; aborted transactions; argument-length table around the batching limit",
+         "Drives the real SQLite client with PRNG sequences over all ~70 interface methods (incl. the ones no IMAP script reaches), compares every return value and, after every write transaction, a dump of the whole database through its getters with a small relational model; transactions aborted at PRNG-chosen points must leave no trace; every list-taking method is called with 0..2500 arguments. Held on the sequences explored.",
+         "Trusts the relational model (written from the interface's contract; methods are only called where the contract is defined, e.g. DeleteMessages for messages in no mailbox) and the getters used for the dump (each getter is itself cross-checked against the model individually).",
+         "DESIGN.md §4 C08"),
 }
 
 ALL = ["C%02d" % i for i in range(1, 21)]
